@@ -67,22 +67,9 @@ theorem mem_uniAdd (m : Cmap) (n n' : String) (vs : List Nat) (c : Nat) :
     · subst e
       by_cases hm : n ∈ namesAt m v
       · simp only [hm, if_true, List.mem_cons, true_or, and_true]
-        constructor
-        · rintro (h | h)
-          · exact Or.inl h
-          · exact Or.inr h.1
-        · rintro (h | h)
-          · exact Or.inl h
-          · subst h; exact Or.inl hm
-      · simp only [hm, if_false, if_true, List.mem_append, List.mem_singleton, List.mem_cons, true_or, and_true]
-        constructor
-        · rintro ((h | h) | h)
-          · exact Or.inl h
-          · exact Or.inr h
-          · exact Or.inr h.1
-        · rintro (h | h)
-          · exact Or.inl (Or.inl h)
-          · exact Or.inl (Or.inr h)
+        grind
+      · simp only [hm, if_false, if_true, List.mem_append, List.mem_cons, List.not_mem_nil, or_false, true_or, and_true]
+        grind
     · have e' : ¬ c = v := fun x => e x.symm
       simp [e, e']
 
@@ -117,33 +104,1158 @@ theorem mem_uniRemove {m : Cmap} (h : UniWF m) (n n' : String) (vs : List Nat) (
       simp only
       have hl : l.Nodup := h.lists _ (AL.mem_of_get? hg)
       have hnames : namesAt m v = l := by simp [namesAt, hg]
+      have herase : ∀ x, x ∈ l.erase n ↔ x ≠ n ∧ x ∈ l := fun x => hl.mem_erase_iff
       by_cases hemp : (l.erase n).isEmpty = true
-      · simp only [hemp, if_true]
-        rw [ih (uniWF_erase h v), namesAt_erase _ _ _ h.keys]
+      · rw [if_pos hemp, ih (uniWF_erase h v), namesAt_erase _ _ _ h.keys]
         by_cases e : v = c
         · subst e
-          have : l.erase n = [] := by simpa using hemp
+          have hnil : l.erase n = [] := by simpa using hemp
           have hmem : ∀ x, x ∈ l → x = n := by
             intro x hx
-            by_contra hne
-            have : x ∈ l.erase n := (hl.mem_erase_iff).mpr ⟨hne, hx⟩
-            simp_all
-          simp only [if_true, List.not_mem_nil, false_and, hnames, List.mem_cons, true_or, and_true, false_iff,
-            not_and, Decidable.not_not]
+            by_cases hne : x = n
+            · exact hne
+            · have : x ∈ l.erase n := (herase x).mpr ⟨hne, hx⟩
+              rw [hnil] at this
+              simp at this
+          rw [hnames]
+          simp only [if_true, List.not_mem_nil, false_and, List.mem_cons, true_or, and_true, false_iff, not_and,
+            Decidable.not_not]
           intro hx; exact hmem _ hx
         · have e' : ¬ c = v := fun x => e x.symm
           simp [e, e']
-      · simp only [hemp, Bool.false_eq_true, if_false]
-        rw [ih (uniWF_set h v _ ((List.erase_sublist).nodup hl)), namesAt_set]
+      · rw [if_neg hemp, ih (uniWF_set h v _ ((List.erase_sublist).nodup hl)), namesAt_set]
         by_cases e : v = c
         · subst e
-          simp only [if_true, hnames, List.mem_cons, true_or, and_true]
-          rw [hl.mem_erase_iff]
-          constructor
-          · rintro ⟨⟨h1, h2⟩, _⟩; exact ⟨h2, h1⟩
-          · rintro ⟨h1, h2⟩; exact ⟨⟨h2, h1⟩, fun x => h2 x.1⟩
+          rw [hnames]
+          simp only [if_true, List.mem_cons, true_or, and_true]
+          rw [herase]
+          grind
         · have e' : ¬ c = v := fun x => e x.symm
           simp [e, e']
+
+/-! ### abstraction and invariant, primitive by primitive -/
+
+theorem mem_addKey (ks : List String) (n k : String) : k ∈ addKey ks n ↔ k ∈ ks ∨ k = n := by
+  unfold addKey
+  split
+  · rename_i h
+    constructor
+    · exact Or.inl
+    · rintro (h1 | h1)
+      · exact h1
+      · subst h1; exact h
+  · simp
+
+theorem nodup_addKey (ks : List String) (n : String) (h : ks.Nodup) : (addKey ks n).Nodup := by
+  unfold addKey
+  split
+  · exact h
+  · rename_i hn
+    rw [List.nodup_append]
+    refine ⟨h, by simp, ?_⟩
+    intro a ha b hb
+    simp at hb; subst hb
+    intro e; subst e; exact hn ha
+
+theorem abs_insertGlyph (s : State) (n : String) (r : GRec) (d : Bool) (k : String) :
+    abs (insertGlyph s n r d) k = if k = n then some r else abs s k := by
+  unfold abs insertGlyph
+  simp only [AL.get?_set]
+  by_cases e : n = k
+  · subst e; simp
+  · have e' : ¬ k = n := fun x => e x.symm
+    simp [e, e']
+
+/-- the part of `insertGlyph` that `WF` looks at -/
+theorem wf_insertGlyph {s : State} (h : WF s) (n : String) (r : GRec) (d : Bool)
+    (hclean : d = false → AL.get? s.disk n = some r) : WF (insertGlyph s n r d) := by
+  have habs := abs_insertGlyph s n r d
+  constructor
+  · exact h.diskKeys
+  · exact AL.nodup_keys_set _ _ _ h.loadedKeys
+  · exact nodup_addKey _ _ h.keysNodup
+  · exact (List.filter_sublist).nodup h.schedNodup
+  · intro m hm
+    simp only [insertGlyph, List.mem_filter] at hm
+    exact h.schedDisk m hm.1
+  · intro m hm
+    simp only [insertGlyph, List.mem_filter, ne_eq, decide_eq_true_eq] at hm
+    simp only [insertGlyph]
+    rw [AL.get?_set_ne _ _ _ _ (fun e => hm.2 e.symm)]
+    exact h.schedNotLoaded m hm.1
+  · intro k
+    rw [habs]
+    simp only [insertGlyph, mem_addKey]
+    by_cases e : k = n
+    · simp [e]
+    · simp [e, h.keysIff k]
+  · intro k r' hk
+    simp only [insertGlyph, AL.get?_set] at hk
+    by_cases e : n = k
+    · subst e
+      simp at hk
+      obtain ⟨rfl, rfl⟩ := hk
+      exact hclean rfl
+    · simp only [e, if_false] at hk
+      exact h.cleanEq k r' hk
+
+theorem abs_of_loaded {s : State} {n : String} {p : GRec × Bool} (h : AL.get? s.loaded n = some p) :
+    abs s n = some p.1 := by
+  unfold abs; simp [h]
+
+theorem abs_of_not_loaded {s : State} {n : String} (h : AL.get? s.loaded n = none) :
+    abs s n = if n ∈ s.sched then none else AL.get? s.disk n := by
+  unfold abs; simp [h]
+
+/-- `load` is invisible: it installs exactly the record the abstraction already showed -/
+theorem load_ok {s s' : State} {n : String} (h : WF s) (hl : load s n = .ok s')
+    (hnot : AL.get? s.loaded n = none) :
+    ∃ r, AL.get? s.disk n = some r ∧ n ∉ s.sched ∧ s' = insertGlyph s n r false ∧ abs s n = some r := by
+  unfold load at hl
+  cases hd : AL.get? s.disk n with
+  | none => simp [hd] at hl
+  | some r =>
+    simp only [hd] at hl
+    by_cases hs : n ∈ s.sched
+    · simp [hs] at hl
+    · simp only [hs, if_false, Except.ok.injEq] at hl
+      refine ⟨r, rfl, hs, hl.symm, ?_⟩
+      rw [abs_of_not_loaded hnot]; simp [hs, hd]
+
+theorem load_error_iff {s : State} {n : String} (hnot : AL.get? s.loaded n = none) :
+    (∃ e, load s n = .error e) ↔ abs s n = none := by
+  rw [abs_of_not_loaded hnot]
+  unfold load
+  cases hd : AL.get? s.disk n with
+  | none => simp; exact ⟨.keyError, trivial⟩
+  | some r =>
+    by_cases hs : n ∈ s.sched
+    · simp [hs]; exact ⟨.keyError, trivial⟩
+    · simp [hs]
+
+/-! ### the unicode invariant under abstract updates -/
+
+theorem uniInv_congr {f g : String → Option GRec} {u : Option Cmap} (h : ∀ k, f k = g k) (hu : UniInv f u) :
+    UniInv g u := by
+  intro m hm
+  obtain ⟨h1, h2⟩ := hu m hm
+  refine ⟨h1, ?_⟩
+  intro c n; rw [h2, h]
+
+theorem uniInv_none (f : String → Option GRec) : UniInv f none := by
+  intro m hm; simp at hm
+
+theorem uniInv_remove {f : String → Option GRec} {u : Option Cmap} (hu : UniInv f u) (n : String) (r : GRec)
+    (hf : f n = some r) : UniInv (upd f n none) (u.map (fun m => uniRemove m n r.unicodes)) := by
+  intro m' hm'
+  cases u with
+  | none => simp at hm'
+  | some m =>
+    simp at hm'; subst hm'
+    obtain ⟨h1, h2⟩ := hu m rfl
+    refine ⟨uniWF_uniRemove h1 _ _, ?_⟩
+    intro c n'
+    rw [mem_uniRemove h1, h2]
+    unfold upd
+    by_cases e : n' = n
+    · subst e; simp [hf]
+    · simp [e]
+
+theorem uniInv_remove_absent {f : String → Option GRec} {u : Option Cmap} (hu : UniInv f u) (n : String)
+    (vs : List Nat) (hf : f n = none) : UniInv f (u.map (fun m => uniRemove m n vs)) := by
+  intro m' hm'
+  cases u with
+  | none => simp at hm'
+  | some m =>
+    simp at hm'; subst hm'
+    obtain ⟨h1, h2⟩ := hu m rfl
+    refine ⟨uniWF_uniRemove h1 _ _, ?_⟩
+    intro c n'
+    rw [mem_uniRemove h1, h2]
+    constructor
+    · exact fun h => h.1
+    · intro h
+      refine ⟨h, ?_⟩
+      rintro ⟨e, _⟩
+      subst e
+      obtain ⟨r, hr, _⟩ := h
+      rw [hf] at hr; simp at hr
+
+theorem uniInv_add {f : String → Option GRec} {u : Option Cmap} (hu : UniInv f u) (n : String) (r : GRec)
+    (hf : f n = none) : UniInv (upd f n (some r)) (u.map (fun m => uniAdd m n r.unicodes)) := by
+  intro m' hm'
+  cases u with
+  | none => simp at hm'
+  | some m =>
+    simp at hm'; subst hm'
+    obtain ⟨h1, h2⟩ := hu m rfl
+    refine ⟨uniWF_uniAdd h1 _ _, ?_⟩
+    intro c n'
+    rw [mem_uniAdd, h2]
+    unfold upd
+    by_cases e : n' = n
+    · subst e; simp [hf]
+    · simp [e]
+
+theorem uniInv_add_same {f : String → Option GRec} {u : Option Cmap} (hu : UniInv f u) (n : String) (r : GRec)
+    (hf : f n = some r) : UniInv f (u.map (fun m => uniAdd m n r.unicodes)) := by
+  intro m' hm'
+  cases u with
+  | none => simp at hm'
+  | some m =>
+    simp at hm'; subst hm'
+    obtain ⟨h1, h2⟩ := hu m rfl
+    refine ⟨uniWF_uniAdd h1 _ _, ?_⟩
+    intro c n'
+    rw [mem_uniAdd, h2]
+    constructor
+    · rintro (h | ⟨e, hc⟩)
+      · exact h
+      · subst e; exact ⟨r, hf, hc⟩
+    · exact Or.inl
+
+theorem uniAdd_nil (m : Cmap) (n : String) : uniAdd m n [] = m := rfl
+
+theorem insertGlyph_uni (s : State) (n : String) (r : GRec) (d : Bool) :
+    (insertGlyph s n r d).uni = s.uni.map (fun m => uniAdd m n r.unicodes) := by
+  unfold insertGlyph
+  cases s.uni with
+  | none => rfl
+  | some m =>
+    simp only [Option.map_some]
+    split
+    · rename_i he
+      have : r.unicodes = [] := by simpa using he
+      rw [this, uniAdd_nil]
+    · rfl
+
+theorem upd_same (f : String → Option GRec) (n : String) (v : Option GRec) (h : f n = v) (k : String) :
+    upd f n v k = f k := by
+  unfold upd; by_cases e : k = n
+  · subst e; simp [h]
+  · simp [e]
+
+theorem abs_insertGlyph_upd (s : State) (n : String) (r : GRec) (d : Bool) (k : String) :
+    abs (insertGlyph s n r d) k = upd (abs s) n (some r) k := abs_insertGlyph s n r d k
+
+/-! ### getItem -/
+
+theorem recsOK_congr {s s' : State} (h : ∀ k, abs s' k = abs s k) (hr : RecsOK s) : RecsOK s' := by
+  intro n r hn; rw [h] at hn; exact hr n r hn
+
+theorem getItem_spec {s s' : State} {n : String} {r : GRec} (h : Good s) (hg : getItem s n = .ok (s', r)) :
+    Good s' ∧ (∀ k, abs s' k = abs s k) ∧ abs s n = some r ∧ (∃ d, AL.get? s'.loaded n = some (r, d)) ∧
+    s'.disk = s.disk ∧ (s.uni.isSome ↔ s'.uni.isSome) := by
+  unfold getItem at hg
+  cases hl : AL.get? s.loaded n with
+  | some p =>
+    obtain ⟨r0, d0⟩ := p
+    simp only [hl, Except.ok.injEq, Prod.mk.injEq] at hg
+    obtain ⟨rfl, rfl⟩ := hg
+    exact ⟨h, fun _ => rfl, abs_of_loaded hl, ⟨d0, hl⟩, rfl, Iff.rfl⟩
+  | none =>
+    simp only [hl] at hg
+    cases hld : load s n with
+    | error e => simp [hld] at hg
+    | ok s1 =>
+      simp only [hld] at hg
+      obtain ⟨r1, hdisk, hns, hs1, habs⟩ := load_ok h.wf hld hl
+      have hget : AL.get? s1.loaded n = some (r1, false) := by
+        rw [hs1]; simp [insertGlyph]
+      simp only [hget, Except.ok.injEq, Prod.mk.injEq] at hg
+      obtain ⟨rfl, rfl⟩ := hg
+      have hsame : ∀ k, abs s1 k = abs s k := by
+        intro k; rw [hs1, abs_insertGlyph_upd]; exact upd_same _ _ _ habs k
+      refine ⟨⟨?_, ?_, recsOK_congr hsame h.recs⟩, hsame, habs, ⟨false, hget⟩, by rw [hs1]; rfl, ?_⟩
+      · rw [hs1]; exact wf_insertGlyph h.wf n r1 false (fun _ => hdisk)
+      · unfold UniOK
+        apply uniInv_congr (fun k => (hsame k).symm)
+        rw [hs1, insertGlyph_uni]
+        exact uniInv_add_same h.uni n r1 habs
+      · rw [hs1, insertGlyph_uni]; cases s.uni <;> simp
+
+theorem getItem_error_iff {s : State} {n : String} (h : WF s) :
+    (∃ e, getItem s n = .error e) ↔ abs s n = none := by
+  unfold getItem
+  cases hl : AL.get? s.loaded n with
+  | some p => simp [abs_of_loaded hl]
+  | none =>
+    simp only
+    rw [← load_error_iff hl]
+    cases hld : load s n with
+    | error e => simp
+    | ok s1 =>
+      obtain ⟨r1, _, _, hs1, _⟩ := load_ok h hld hl
+      have hget : AL.get? s1.loaded n = some (r1, false) := by
+        rw [hs1]; simp [insertGlyph]
+      simp [hget]
+
+/-! ### dropGlyph / forgetUni -/
+
+theorem abs_forgetUni (s : State) (n : String) (us : List Nat) (k : String) : abs (forgetUni s n us) k = abs s k := rfl
+
+theorem wf_forgetUni {s : State} (h : WF s) (n : String) (us : List Nat) : WF (forgetUni s n us) :=
+  ⟨h.diskKeys, h.loadedKeys, h.keysNodup, h.schedNodup, h.schedDisk, h.schedNotLoaded, h.keysIff, h.cleanEq⟩
+
+theorem abs_dropGlyph {s : State} (h : WF s) (n k : String) :
+    abs (dropGlyph s n) k = upd (abs s) n none k := by
+  unfold upd
+  by_cases e : k = n
+  · subst e
+    simp only [if_true]
+    unfold abs dropGlyph
+    simp only [AL.get?_erase_self_of_nodup _ _ h.loadedKeys]
+    unfold onDisk
+    by_cases hd : AL.contains s.disk k = true
+    · simp [hd, mem_addKey]
+    · have : AL.get? s.disk k = none := (AL.contains_false_iff _ _).mp (by simpa using hd)
+      simp [hd, this]
+  · simp only [e, if_false]
+    unfold abs dropGlyph
+    have e' : n ≠ k := fun x => e x.symm
+    rw [AL.get?_erase_ne _ _ _ e']
+    cases AL.get? s.loaded k with
+    | some p => rfl
+    | none =>
+      simp only
+      by_cases hd : onDisk s n = true
+      · simp [hd, mem_addKey, e]
+      · simp [hd]
+
+theorem wf_dropGlyph {s : State} (h : WF s) (n : String) : WF (dropGlyph s n) := by
+  have habs := abs_dropGlyph h n
+  constructor
+  · exact h.diskKeys
+  · exact AL.nodup_keys_erase _ _ h.loadedKeys
+  · exact (List.filter_sublist).nodup h.keysNodup
+  · unfold dropGlyph; simp only; split
+    · exact nodup_addKey _ _ h.schedNodup
+    · exact h.schedNodup
+  · intro m hm
+    unfold dropGlyph at hm ⊢
+    simp only at hm ⊢
+    split at hm
+    · rename_i hd
+      rcases (mem_addKey _ _ _).mp hm with h1 | h1
+      · exact h.schedDisk m h1
+      · subst h1; exact hd
+    · exact h.schedDisk m hm
+  · intro m hm
+    unfold dropGlyph at hm ⊢
+    simp only at hm ⊢
+    rw [AL.get?_erase _ _ _ h.loadedKeys]
+    split
+    · rfl
+    · split at hm
+      · rcases (mem_addKey _ _ _).mp hm with h1 | h1
+        · exact h.schedNotLoaded m h1
+        · subst h1; rename_i hne _; exact absurd rfl hne
+      · exact h.schedNotLoaded m hm
+  · intro k
+    rw [habs]
+    unfold upd
+    simp only [dropGlyph, List.mem_filter, ne_eq, decide_eq_true_eq]
+    by_cases e : k = n
+    · simp [e]
+    · simp [e, h.keysIff k]
+  · intro k r' hk
+    unfold dropGlyph at hk ⊢
+    simp only at hk ⊢
+    rw [AL.get?_erase _ _ _ h.loadedKeys] at hk
+    split at hk
+    · simp at hk
+    · exact h.cleanEq k r' hk
+
+theorem recsOK_upd_none {f : String → Option GRec} (n : String)
+    (hr : ∀ k r, f k = some r → r.unicodes.Nodup) : ∀ k r, upd f n none k = some r → r.unicodes.Nodup := by
+  intro k r hk
+  unfold upd at hk
+  split at hk
+  · simp at hk
+  · exact hr k r hk
+
+theorem recsOK_upd_some {f : String → Option GRec} (n : String) (r0 : GRec) (h0 : r0.unicodes.Nodup)
+    (hr : ∀ k r, f k = some r → r.unicodes.Nodup) : ∀ k r, upd f n (some r0) k = some r → r.unicodes.Nodup := by
+  intro k r hk
+  unfold upd at hk
+  split at hk
+  · simp at hk; subst hk; exact h0
+  · exact hr k r hk
+
+/-! ### visibility -/
+
+theorem abs_none_of_sched {s : State} (h : WF s) {n : String} (hn : n ∈ s.sched) : abs s n = none := by
+  rw [abs_of_not_loaded (h.schedNotLoaded n hn)]; simp [hn]
+
+theorem mem_visible_iff {s : State} (h : WF s) (n : String) : n ∈ visible s ↔ (abs s n).isSome := by
+  unfold visible
+  simp only [List.mem_filter, decide_eq_true_eq]
+  rw [h.keysIff]
+  constructor
+  · exact fun x => x.1
+  · intro x
+    refine ⟨x, ?_⟩
+    intro hs
+    rw [abs_none_of_sched h hs] at x
+    simp at x
+
+/-! ### replacing the record of a loaded glyph -/
+
+theorem abs_setLoaded (s : State) (n : String) (r' : GRec) (u : Option Cmap) (k : String) :
+    abs (setLoaded s n r' u) k = if k = n then some r' else abs s k := by
+  unfold abs setLoaded
+  simp only [AL.get?_set]
+  by_cases e : n = k
+  · subst e; simp
+  · have e' : ¬ k = n := fun x => e x.symm
+    simp [e, e']
+
+theorem wf_setLoaded {s : State} (h : WF s) (n : String) (r' : GRec) (u : Option Cmap) {p : GRec × Bool}
+    (hl : AL.get? s.loaded n = some p) :
+    WF (setLoaded s n r' u) := by
+  have habs := abs_setLoaded s n r' u
+  unfold setLoaded at habs ⊢
+  constructor
+  · exact h.diskKeys
+  · exact AL.nodup_keys_set _ _ _ h.loadedKeys
+  · exact h.keysNodup
+  · exact h.schedNodup
+  · exact h.schedDisk
+  · intro m hm
+    simp only
+    have : n ≠ m := by
+      intro e; subst e
+      rw [h.schedNotLoaded _ hm] at hl; simp at hl
+    rw [AL.get?_set_ne _ _ _ _ this]
+    exact h.schedNotLoaded m hm
+  · intro k
+    rw [habs]
+    by_cases e : k = n
+    · subst e
+      simp only [if_true, Option.isSome_some, iff_true]
+      exact (h.keysIff k).mpr (by rw [abs_of_loaded hl]; rfl)
+    · simp only [e, if_false]; exact h.keysIff k
+  · intro k r'' hk
+    simp only [AL.get?_set] at hk
+    by_cases e : n = k
+    · subst e; simp at hk
+    · simp only [e, if_false] at hk
+      exact h.cleanEq k r'' hk
+
+theorem uniInv_upd_same_unicodes {f : String → Option GRec} {u : Option Cmap} (hu : UniInv f u) (n : String)
+    (r r' : GRec) (hf : f n = some r) (hus : r'.unicodes = r.unicodes) : UniInv (upd f n (some r')) u := by
+  intro m hm
+  obtain ⟨h1, h2⟩ := hu m hm
+  refine ⟨h1, ?_⟩
+  intro c n'
+  rw [h2]
+  unfold upd
+  by_cases e : n' = n
+  · subst e; simp [hf, hus]
+  · simp [e]
+
+theorem upd_upd_same (f : String → Option GRec) (n : String) (v w : Option GRec) (k : String) :
+    upd (upd f n v) n w k = upd f n w k := by
+  unfold upd; by_cases e : k = n <;> simp [e]
+
+theorem uniInv_replace {f : String → Option GRec} {u : Option Cmap} (hu : UniInv f u) (n : String)
+    (r r' : GRec) (hf : f n = some r) :
+    UniInv (upd f n (some r')) (u.map (fun m => uniAdd (uniRemove m n r.unicodes) n r'.unicodes)) := by
+  have h1 := uniInv_remove hu n r hf
+  have h2 := uniInv_add h1 n r' (by simp [upd])
+  have h3 := uniInv_congr (upd_upd_same f n none (some r')) h2
+  simpa [Option.map_map, Function.comp_def] using h3
+
+theorem uniInv_insert_after_forget {f : String → Option GRec} {u : Option Cmap}
+    (hu : UniInv (upd f n none) u) (r : GRec) :
+    UniInv (upd f n (some r)) (u.map (fun m => uniAdd m n r.unicodes)) := by
+  have h2 := uniInv_add hu n r (by simp [upd])
+  exact uniInv_congr (upd_upd_same f n none (some r)) h2
+
+/-! ### the operations -/
+
+theorem delete_spec {s s' : State} {n : String} (h : Good s) (hd : deleteGlyph s n = .ok s')
+    (hv : (abs s n).isSome) : Good s' ∧ ∀ k, abs s' k = upd (abs s) n none k := by
+  unfold deleteGlyph at hd
+  cases hu : s.uni with
+  | none =>
+    simp only [hu, Except.ok.injEq] at hd
+    subst hd
+    have habs := abs_dropGlyph h.wf n
+    refine ⟨⟨wf_dropGlyph h.wf n, ?_, ?_⟩, habs⟩
+    · unfold UniOK
+      have : (dropGlyph s n).uni = none := hu
+      rw [this]; exact uniInv_none _
+    · intro k r hk; rw [habs] at hk; exact recsOK_upd_none n h.recs k r hk
+  | some m =>
+    simp only [hu] at hd
+    cases hg : getItem s n with
+    | error e => simp [hg] at hd
+    | ok p =>
+      obtain ⟨s1, r⟩ := p
+      simp only [hg, Except.ok.injEq] at hd
+      subst hd
+      obtain ⟨hg1, hsame, hr, _, _, _⟩ := getItem_spec h hg
+      have hwf := wf_forgetUni hg1.wf n r.unicodes
+      have habs : ∀ k, abs (dropGlyph (forgetUni s1 n r.unicodes) n) k = upd (abs s) n none k := by
+        intro k
+        rw [abs_dropGlyph hwf]
+        unfold upd
+        split
+        · rfl
+        · rw [abs_forgetUni, hsame]
+      refine ⟨⟨wf_dropGlyph hwf n, ?_, ?_⟩, habs⟩
+      · unfold UniOK
+        apply uniInv_congr (fun k => (habs k).symm)
+        have : (dropGlyph (forgetUni s1 n r.unicodes) n).uni = s1.uni.map (fun m => uniRemove m n r.unicodes) := rfl
+        rw [this]
+        have hu1 : UniInv (abs s) s1.uni := uniInv_congr hsame hg1.uni
+        exact uniInv_remove hu1 n r hr
+      · intro k r' hk; rw [habs] at hk; exact recsOK_upd_none n h.recs k r' hk
+
+theorem new_spec {s s' : State} {n : String} (h : Good s) (hd : newGlyph s n = .ok s') :
+    Good s' ∧ ∀ k, abs s' k = upd (abs s) n (some {}) k := by
+  unfold newGlyph at hd
+  have hnodup : ({} : GRec).unicodes.Nodup := by simp
+  by_cases hc : n ∈ visible s ∧ s.uni.isSome
+  · rw [if_pos hc] at hd
+    cases hg : getItem s n with
+    | error e => simp [hg] at hd
+    | ok p =>
+      obtain ⟨s1, r⟩ := p
+      simp only [hg, Except.ok.injEq] at hd
+      subst hd
+      obtain ⟨hg1, hsame, hr, _, _, _⟩ := getItem_spec h hg
+      have habs : ∀ k, abs (insertGlyph (forgetUni s1 n r.unicodes) n {} true) k = upd (abs s) n (some {}) k := by
+        intro k
+        rw [abs_insertGlyph_upd]
+        unfold upd
+        split
+        · rfl
+        · rw [abs_forgetUni, hsame]
+      refine ⟨⟨wf_insertGlyph (wf_forgetUni hg1.wf n r.unicodes) n {} true (by simp), ?_, ?_⟩, habs⟩
+      · unfold UniOK
+        apply uniInv_congr (fun k => (habs k).symm)
+        rw [insertGlyph_uni]
+        have hu1 : UniInv (abs s) s1.uni := uniInv_congr hsame hg1.uni
+        exact uniInv_insert_after_forget (uniInv_remove hu1 n r hr) {}
+      · intro k r' hk; rw [habs] at hk; exact recsOK_upd_some n {} hnodup h.recs k r' hk
+  · rw [if_neg hc] at hd
+    simp only [Except.ok.injEq] at hd
+    subst hd
+    have habs := abs_insertGlyph_upd s n {} true
+    refine ⟨⟨wf_insertGlyph h.wf n {} true (by simp), ?_, ?_⟩, habs⟩
+    · unfold UniOK
+      apply uniInv_congr (fun k => (habs k).symm)
+      rw [insertGlyph_uni]
+      cases hu : s.uni with
+      | none => exact uniInv_none _
+      | some m =>
+        have hnv : abs s n = none := by
+          have : ¬ n ∈ visible s := fun hv => hc ⟨hv, by simp [hu]⟩
+          rw [mem_visible_iff h.wf] at this
+          cases hh : abs s n with
+          | none => rfl
+          | some x => simp [hh] at this
+        have := uniInv_add h.uni n {} hnv
+        rw [hu] at this
+        exact this
+    · intro k r' hk; rw [habs] at hk; exact recsOK_upd_some n {} hnodup h.recs k r' hk
+
+theorem setUnicodes_spec {s s' : State} {n : String} {us : List Nat} (h : Good s) (hus : us.Nodup)
+    (hd : setUnicodes s n us = .ok s') :
+    Good s' ∧ ∃ r, abs s n = some r ∧ ∀ k, abs s' k = upd (abs s) n (some (withUnicodes r us)) k := by
+  unfold setUnicodes at hd
+  cases hg : getItem s n with
+  | error e => simp [hg] at hd
+  | ok p =>
+    obtain ⟨s1, r⟩ := p
+    simp only [hg] at hd
+    obtain ⟨hg1, hsame, hr, ⟨d, hl⟩, _, _⟩ := getItem_spec h hg
+    by_cases he : r.unicodes = us
+    · rw [if_pos he] at hd
+      simp only [Except.ok.injEq] at hd
+      subst hd
+      refine ⟨hg1, r, hr, ?_⟩
+      intro k
+      rw [hsame]
+      have : withUnicodes r us = r := by subst he; rfl
+      rw [this]
+      exact (upd_same _ _ _ hr k).symm
+    · rw [if_neg he] at hd
+      simp only [Except.ok.injEq] at hd
+      subst hd
+      have habs : ∀ k, abs (setLoaded s1 n (withUnicodes r us)
+            (s1.uni.map (fun m => uniAdd (uniRemove m n r.unicodes) n us))) k =
+          upd (abs s) n (some (withUnicodes r us)) k := by
+        intro k
+        rw [abs_setLoaded]
+        unfold upd
+        split
+        · rfl
+        · exact hsame k
+      refine ⟨⟨wf_setLoaded hg1.wf n _ _ hl, ?_, ?_⟩, r, hr, habs⟩
+      · unfold UniOK
+        apply uniInv_congr (fun k => (habs k).symm)
+        have hu1 : UniInv (abs s) s1.uni := uniInv_congr hsame hg1.uni
+        exact uniInv_replace hu1 n r (withUnicodes r us) hr
+      · intro k r' hk; rw [habs] at hk
+        exact recsOK_upd_some n _ hus h.recs k r' hk
+
+theorem edit_spec {s s' : State} {n : String} {c : List String} {i : Option String} {ol ofast : Bool}
+    (h : Good s) (hd : editRest s n c i ol ofast = .ok s') :
+    Good s' ∧ ∃ r, abs s n = some r ∧
+      ∀ k, abs s' k = upd (abs s) n (some (withRest r c i ol ofast)) k := by
+  unfold editRest at hd
+  cases hg : getItem s n with
+  | error e => simp [hg] at hd
+  | ok p =>
+    obtain ⟨s1, r⟩ := p
+    simp only [hg, Except.ok.injEq] at hd
+    subst hd
+    obtain ⟨hg1, hsame, hr, ⟨d, hl⟩, _, _⟩ := getItem_spec h hg
+    have habs : ∀ k, abs (setLoaded s1 n (withRest r c i ol ofast) s1.uni) k =
+        upd (abs s) n (some (withRest r c i ol ofast)) k := by
+      intro k
+      rw [abs_setLoaded]
+      unfold upd
+      split
+      · rfl
+      · exact hsame k
+    refine ⟨⟨wf_setLoaded hg1.wf n _ s1.uni hl, ?_, ?_⟩, r, hr, habs⟩
+    · unfold UniOK
+      apply uniInv_congr (fun k => (habs k).symm)
+      have hu1 : UniInv (abs s) s1.uni := uniInv_congr hsame hg1.uni
+      exact uniInv_upd_same_unicodes hu1 n r _ hr rfl
+    · intro k r' hk; rw [habs] at hk
+      exact recsOK_upd_some n (withRest r c i ol ofast) (h.recs n r hr) h.recs k r' hk
+
+theorem rename_spec {s s' : State} {o n : String} (h : Good s) (hdom : o = n ∨ abs s n = none)
+    (hd : rename s o n = .ok s') :
+    Good s' ∧ ∃ r, abs s o = some r ∧
+      ∀ k, abs s' k = (if o = n then abs s k else upd (upd (abs s) o none) n (some r) k) := by
+  unfold rename at hd
+  cases hg : getItem s o with
+  | error e => simp [hg] at hd
+  | ok p =>
+    obtain ⟨s1, r⟩ := p
+    simp only [hg] at hd
+    obtain ⟨hg1, hsame, hr, _, _, _⟩ := getItem_spec h hg
+    by_cases he : o = n
+    · rw [if_pos he] at hd
+      simp only [Except.ok.injEq] at hd
+      subst hd
+      exact ⟨hg1, r, hr, fun k => by simp [he, hsame]⟩
+    · rw [if_neg he] at hd
+      have hnone : abs s n = none := by
+        rcases hdom with x | x
+        · exact absurd x he
+        · exact x
+      cases hdel : deleteGlyph s1 o with
+      | error e => simp [hdel] at hd
+      | ok s2 =>
+        simp only [hdel, Except.ok.injEq] at hd
+        subst hd
+        have hv : (abs s1 o).isSome := by rw [hsame, hr]; rfl
+        obtain ⟨hg2, habs2⟩ := delete_spec hg1 hdel hv
+        have ho2 : abs s2 o = none := by rw [habs2]; simp [upd]
+        have hn2 : abs s2 n = none := by
+          rw [habs2]; unfold upd
+          have : ¬ n = o := fun x => he x.symm
+          simp [this, hsame, hnone]
+        have habs : ∀ k, abs (insertGlyph (forgetUni s2 o r.unicodes) n r true) k =
+            upd (upd (abs s) o none) n (some r) k := by
+          intro k
+          rw [abs_insertGlyph_upd]
+          unfold upd
+          by_cases e1 : k = n
+          · simp [e1]
+          · simp only [e1, if_false]
+            rw [abs_forgetUni, habs2]
+            unfold upd
+            split
+            · rfl
+            · exact hsame k
+        refine ⟨⟨wf_insertGlyph (wf_forgetUni hg2.wf o r.unicodes) n r true (by simp), ?_, ?_⟩, r, hr, ?_⟩
+        · unfold UniOK
+          apply uniInv_congr (fun k => (habs k).symm)
+          rw [insertGlyph_uni]
+          have hu2 : UniInv (abs s2) (forgetUni s2 o r.unicodes).uni :=
+            uniInv_remove_absent hg2.uni o r.unicodes ho2
+          have hu3 := uniInv_add hu2 n r hn2
+          apply uniInv_congr _ hu3
+          intro k
+          unfold upd
+          by_cases e1 : k = n
+          · simp [e1]
+          · simp only [e1, if_false]
+            rw [habs2]
+            unfold upd
+            split
+            · rfl
+            · exact hsame k
+        · intro k r' hk; rw [habs] at hk
+          exact recsOK_upd_some n r (h.recs o r hr) (recsOK_upd_none o h.recs) k r' hk
+        · intro k; simp only [he, if_false]; exact habs k
+
+theorem grec_eta (r : GRec) :
+    withRest (withUnicodes {} r.unicodes) r.comps r.image r.outlineLoaded r.outlineFast = r := by
+  cases r; rfl
+
+theorem insert_spec {s s' : State} {n : String} {r : GRec} (h : Good s) (hus : r.unicodes.Nodup)
+    (hd : insert s n r = .ok s') : Good s' ∧ ∀ k, abs s' k = upd (abs s) n (some r) k := by
+  unfold insert at hd
+  cases h1 : newGlyph s n with
+  | error e => simp [h1] at hd
+  | ok s1 =>
+    simp only [h1] at hd
+    obtain ⟨hg1, ha1⟩ := new_spec h h1
+    cases h2 : setUnicodes s1 n r.unicodes with
+    | error e => simp [h2] at hd
+    | ok s2 =>
+      simp only [h2] at hd
+      obtain ⟨hg2, r2, hr2, ha2⟩ := setUnicodes_spec hg1 hus h2
+      obtain ⟨hg3, r3, hr3, ha3⟩ := edit_spec hg2 hd
+      refine ⟨hg3, ?_⟩
+      have e2 : r2 = {} := by
+        rw [ha1] at hr2; simp [upd] at hr2; exact hr2.symm
+      have e3 : r3 = withUnicodes {} r.unicodes := by
+        rw [ha2] at hr3; simp [upd] at hr3; rw [← hr3, e2]
+      intro k
+      rw [ha3, e3, grec_eta]
+      unfold upd
+      split
+      · rfl
+      · rw [ha2]; unfold upd; rename_i hk; simp only [hk, if_false]; rw [ha1]; unfold upd; simp [hk]
+
+/-! ### save -/
+
+theorem get?_foldl_write (l : List (String × (GRec × Bool))) (d0 : List (String × GRec)) (k : String)
+    (hn : (AL.keys l).Nodup) :
+    AL.get? (l.foldl (fun d (p : String × (GRec × Bool)) => if p.2.2 then AL.set d p.1 p.2.1 else d) d0) k =
+      match AL.get? l k with
+      | some (r, true) => some r
+      | _ => AL.get? d0 k := by
+  induction l generalizing d0 with
+  | nil => rfl
+  | cons p rest ih =>
+    obtain ⟨k', r, d⟩ := p
+    simp only [AL.keys, List.map_cons, List.nodup_cons] at hn
+    simp only [List.foldl_cons]
+    rw [ih _ (by simpa [AL.keys] using hn.2)]
+    by_cases e : k' = k
+    · subst e
+      have : AL.get? rest k' = none := AL.get?_eq_none_of_not_mem (by simpa [AL.keys] using hn.1)
+      simp only [this, AL.get?_cons, if_true]
+      cases d <;> simp
+    · simp only [AL.get?_cons, e, if_false]
+      have : AL.get? (if d = true then AL.set d0 k' r else d0) k = AL.get? d0 k := by
+        cases d
+        · simp
+        · simp [AL.get?_set_ne _ _ _ _ e]
+      cases hg : AL.get? rest k with
+      | none => simpa using this
+      | some q =>
+        obtain ⟨r2, d2⟩ := q
+        cases d2
+        · simpa using this
+        · rfl
+
+theorem nodup_keys_foldl_write (l : List (String × (GRec × Bool))) (d0 : List (String × GRec))
+    (h : (AL.keys d0).Nodup) :
+    (AL.keys (l.foldl (fun d (p : String × (GRec × Bool)) => if p.2.2 then AL.set d p.1 p.2.1 else d) d0)).Nodup := by
+  induction l generalizing d0 with
+  | nil => exact h
+  | cons p rest ih =>
+    simp only [List.foldl_cons]
+    apply ih
+    split
+    · exact AL.nodup_keys_set _ _ _ h
+    · exact h
+
+/-- what the glyph set holds after an in-place save -/
+theorem save_disk {s : State} (h : WF s) (k : String) :
+    AL.get? (save s).disk k = abs s k := by
+  unfold save
+  simp only
+  rw [AL.get?_foldl_erase _ _ _ (nodup_keys_foldl_write _ _ h.diskKeys), get?_foldl_write _ _ _ h.loadedKeys]
+  cases hl : AL.get? s.loaded k with
+  | some p =>
+    obtain ⟨r, d⟩ := p
+    have hns : k ∉ s.sched := by
+      intro hs; rw [h.schedNotLoaded k hs] at hl; simp at hl
+    rw [abs_of_loaded hl]
+    simp only [hns, if_false]
+    cases d
+    · exact h.cleanEq k r hl
+    · rfl
+  | none =>
+    rw [abs_of_not_loaded hl]
+
+theorem abs_save {s : State} (h : WF s) (k : String) : abs (save s) k = abs s k := by
+  have hd := save_disk h k
+  unfold abs
+  have hl : AL.get? (save s).loaded k = (AL.get? s.loaded k).map (fun v => (v.1, false)) := by
+    unfold save; exact AL.get?_map_val (fun v : GRec × Bool => (v.1, false)) s.loaded k
+  rw [hl]
+  cases hg : AL.get? s.loaded k with
+  | some p => simp
+  | none =>
+    simp only [Option.map_none]
+    have : (save s).sched = [] := rfl
+    rw [this, hd, abs_of_not_loaded hg]
+    simp
+
+theorem wf_save {s : State} (h : WF s) : WF (save s) := by
+  have habs := abs_save h
+  have hdisk := save_disk h
+  have hl : ∀ k, AL.get? (save s).loaded k = (AL.get? s.loaded k).map (fun v => (v.1, false)) := by
+    intro k; unfold save; exact AL.get?_map_val (fun v : GRec × Bool => (v.1, false)) s.loaded k
+  constructor
+  · unfold save; simp only
+    exact AL.nodup_keys_foldl_erase _ _ (nodup_keys_foldl_write _ _ h.diskKeys)
+  · have : AL.keys (save s).loaded = AL.keys s.loaded := by
+      unfold save; exact AL.keys_map_val (fun v : GRec × Bool => (v.1, false)) s.loaded
+    rw [this]; exact h.loadedKeys
+  · exact h.keysNodup
+  · unfold save; simp
+  · intro m hm; simp [save] at hm
+  · intro m hm; simp [save] at hm
+  · intro k; rw [habs]; exact h.keysIff k
+  · intro k r hk
+    rw [hl] at hk
+    rw [hdisk]
+    cases hg : AL.get? s.loaded k with
+    | none => simp [hg] at hk
+    | some p =>
+      simp [hg] at hk
+      rw [abs_of_loaded hg, hk]
+
+/-! ### first access to the unicode map -/
+
+theorem mem_foldl_uniAdd {α : Type} (l : List (String × α)) (skip : String → Prop) [DecidablePred skip]
+    (us : α → List Nat) (m0 : Cmap) (n' : String) (c : Nat) :
+    n' ∈ namesAt (l.foldl (fun m p => if skip p.1 then m else uniAdd m p.1 (us p.2)) m0) c ↔
+      n' ∈ namesAt m0 c ∨ ∃ p ∈ l, p.1 = n' ∧ ¬ skip p.1 ∧ c ∈ us p.2 := by
+  induction l generalizing m0 with
+  | nil => simp
+  | cons p rest ih =>
+    simp only [List.foldl_cons]
+    rw [ih]
+    by_cases hs : skip p.1
+    · simp only [hs, if_true, List.mem_cons, exists_eq_or_imp, not_true_eq_false, false_and, and_false, false_or]
+    · simp only [hs, if_false, mem_uniAdd, List.mem_cons, exists_eq_or_imp, not_false_eq_true, true_and]
+      constructor
+      · rintro ((h | ⟨h1, h2⟩) | h)
+        · exact Or.inl h
+        · exact Or.inr (Or.inl ⟨h1.symm, h2⟩)
+        · exact Or.inr (Or.inr h)
+      · rintro (h | ⟨h1, h2⟩ | h)
+        · exact Or.inl (Or.inl h)
+        · exact Or.inl (Or.inr ⟨h1.symm, h2⟩)
+        · exact Or.inr h
+
+theorem uniWF_foldl_uniAdd {α : Type} (l : List (String × α)) (skip : String → Prop) [DecidablePred skip]
+    (us : α → List Nat) (m0 : Cmap) (h : UniWF m0) :
+    UniWF (l.foldl (fun m p => if skip p.1 then m else uniAdd m p.1 (us p.2)) m0) := by
+  induction l generalizing m0 with
+  | nil => exact h
+  | cons p rest ih =>
+    simp only [List.foldl_cons]
+    apply ih
+    split
+    · exact h
+    · exact uniWF_uniAdd h _ _
+
+theorem namesAt_nil (c : Nat) : namesAt [] c = [] := rfl
+
+theorem buildUni_spec {s : State} (h : WF s) : UniInv (abs s) (some (buildUni s)) := by
+  intro m hm
+  simp only [Option.some.injEq] at hm
+  subst hm
+  unfold buildUni
+  have hw1 := uniWF_foldl_uniAdd s.loaded (fun x => x ∈ s.sched) (fun r : GRec × Bool => r.1.unicodes) [] uniWF_nil
+  have hw2 := uniWF_foldl_uniAdd s.disk (fun x => isLoaded s x ∨ x ∈ s.sched) (fun r : GRec => r.unicodes) _ hw1
+  refine ⟨hw2, ?_⟩
+  intro c n
+  simp only
+  rw [mem_foldl_uniAdd s.disk (fun x => isLoaded s x ∨ x ∈ s.sched) (fun r => r.unicodes),
+      mem_foldl_uniAdd s.loaded (fun x => x ∈ s.sched) (fun r => r.1.unicodes), namesAt_nil]
+  simp only [List.not_mem_nil, false_or]
+  constructor
+  · rintro (⟨p, hp, hn, hs, hc⟩ | ⟨p, hp, hn, hs, hc⟩)
+    · obtain ⟨k, v⟩ := p
+      simp only at hn hs hc
+      subst hn
+      have := AL.get?_of_mem_nodup h.loadedKeys hp
+      exact ⟨v.1, abs_of_loaded this, hc⟩
+    · obtain ⟨k, v⟩ := p
+      simp only at hn hs hc
+      subst hn
+      simp only [not_or] at hs
+      have hnl : AL.get? s.loaded k = none := (AL.contains_false_iff _ _).mp (by simpa [isLoaded] using hs.1)
+      have := AL.get?_of_mem_nodup h.diskKeys hp
+      refine ⟨v, ?_, hc⟩
+      rw [abs_of_not_loaded hnl]; simp [hs.2, this]
+  · rintro ⟨r, hr, hc⟩
+    cases hl : AL.get? s.loaded n with
+    | some p =>
+      left
+      rw [abs_of_loaded hl] at hr
+      simp only [Option.some.injEq] at hr
+      refine ⟨(n, p), AL.mem_of_get? hl, rfl, ?_, by simpa [hr] using hc⟩
+      intro hs; rw [h.schedNotLoaded n hs] at hl; simp at hl
+    | none =>
+      right
+      rw [abs_of_not_loaded hl] at hr
+      by_cases hs : n ∈ s.sched
+      · simp [hs] at hr
+      · simp only [hs, if_false] at hr
+        refine ⟨(n, r), AL.mem_of_get? hr, rfl, ?_, hc⟩
+        simp only [not_or]
+        refine ⟨?_, hs⟩
+        simp [isLoaded, AL.contains, hl]
+
+theorem touchUni_spec {s : State} (h : Good s) : Good (touchUni s) ∧ ∀ k, abs (touchUni s) k = abs s k := by
+  unfold touchUni
+  cases hu : s.uni with
+  | some m => exact ⟨h, fun _ => rfl⟩
+  | none =>
+    refine ⟨⟨?_, ?_, ?_⟩, fun _ => rfl⟩
+    · exact ⟨h.wf.diskKeys, h.wf.loadedKeys, h.wf.keysNodup, h.wf.schedNodup, h.wf.schedDisk,
+        h.wf.schedNotLoaded, h.wf.keysIff, h.wf.cleanEq⟩
+    · show UniInv (abs s) (some (buildUni s))
+      exact buildUni_spec h.wf
+    · exact h.recs
+
+/-! ### queries as functions of the abstract content -/
+
+/-- the visible records, as the two scans of the data skimmers enumerate them -/
+def visRecs (s : State) : List (String × GRec) :=
+  (s.loaded.filter (fun p => p.1 ∉ s.sched)).map (fun p => (p.1, p.2.1)) ++
+  s.disk.filter (fun p => ¬ isLoaded s p.1 ∧ p.1 ∉ s.sched)
+
+theorem mem_visRecs_iff {s : State} (h : WF s) (n : String) (r : GRec) :
+    (n, r) ∈ visRecs s ↔ abs s n = some r := by
+  unfold visRecs
+  simp only [List.mem_append, List.mem_map, List.mem_filter, decide_eq_true_eq, Prod.mk.injEq]
+  constructor
+  · rintro (⟨p, ⟨hp, hs⟩, hn, hr⟩ | ⟨hp, hnl, hs⟩)
+    · obtain ⟨k, v⟩ := p
+      simp only at hn hr hs
+      subst hn; subst hr
+      exact abs_of_loaded (AL.get?_of_mem_nodup h.loadedKeys hp)
+    · have hnl' : AL.get? s.loaded n = none := (AL.contains_false_iff _ _).mp (by simpa [isLoaded] using hnl)
+      rw [abs_of_not_loaded hnl']
+      simp [hs, AL.get?_of_mem_nodup h.diskKeys hp]
+  · intro hr
+    cases hl : AL.get? s.loaded n with
+    | some p =>
+      left
+      rw [abs_of_loaded hl] at hr
+      simp only [Option.some.injEq] at hr
+      refine ⟨(n, p), ⟨AL.mem_of_get? hl, ?_⟩, rfl, hr⟩
+      intro hs; rw [h.schedNotLoaded n hs] at hl; simp at hl
+    | none =>
+      right
+      rw [abs_of_not_loaded hl] at hr
+      by_cases hs : n ∈ s.sched
+      · simp [hs] at hr
+      · simp only [hs, if_false] at hr
+        exact ⟨AL.mem_of_get? hr, by simp [isLoaded, AL.contains, hl], hs⟩
+
+theorem componentReferences_eq (s : State) :
+    componentReferences s = (visRecs s).flatMap (fun p => p.2.comps.map (fun b => (b, p.1))) := by
+  unfold componentReferences visRecs
+  simp [List.flatMap_append, List.flatMap_map]
+
+theorem imageReferences_eq (s : State) :
+    imageReferences s = (visRecs s).filterMap (fun p => p.2.image.map (fun f => (f, p.1))) := by
+  unfold imageReferences visRecs
+  simp [List.filterMap_append, List.filterMap_map, Function.comp_def]
+
+/-! ### operations never fail on visible glyphs; refinement of one step -/
+
+theorem getItem_ok {s : State} {n : String} (h : WF s) (hv : (abs s n).isSome) :
+    ∃ p, getItem s n = .ok p := by
+  cases hg : getItem s n with
+  | ok p => exact ⟨p, rfl⟩
+  | error e =>
+    have := (getItem_error_iff h).mp ⟨e, hg⟩
+    rw [this] at hv; simp at hv
+
+theorem deleteGlyph_ok {s : State} {n : String} (h : WF s) (hv : (abs s n).isSome) :
+    ∃ s', deleteGlyph s n = .ok s' := by
+  unfold deleteGlyph
+  cases s.uni with
+  | none => exact ⟨_, rfl⟩
+  | some m =>
+    obtain ⟨p, hp⟩ := getItem_ok h hv
+    simp only [hp]
+    exact ⟨_, rfl⟩
+
+theorem newGlyph_ok {s : State} {n : String} (h : WF s) : ∃ s', newGlyph s n = .ok s' := by
+  unfold newGlyph
+  split
+  · rename_i hc
+    obtain ⟨p, hp⟩ := getItem_ok h ((mem_visible_iff h n).mp hc.1)
+    simp only [hp]
+    exact ⟨_, rfl⟩
+  · exact ⟨_, rfl⟩
+
+theorem ptwise_eq_of_upd {f g : String → Option GRec} (h : ∀ k, f k = g k) (n : String) (v : Option GRec) (k : String) :
+    upd f n v k = upd g n v k := by
+  unfold upd; split
+  · rfl
+  · exact h k
+
+theorem step_refines {s : State} (op : Op) (h : Good s) (hop : OpOK (abs s) op) :
+    Good (stepTotal s op) ∧ ∀ k, abs (stepTotal s op) k = specTotal (abs s) op k := by
+  unfold stepTotal specTotal
+  cases op with
+  | get n =>
+    simp only [step, specStep]
+    cases hg : getItem s n with
+    | error e =>
+      have := (getItem_error_iff h.wf).mp ⟨e, hg⟩
+      simp [Except.map, this, h]
+    | ok p =>
+      obtain ⟨s1, r⟩ := p
+      obtain ⟨hg1, hsame, hr, _⟩ := getItem_spec h hg
+      simp [Except.map, hr, hg1, hsame]
+  | new n =>
+    simp only [step, specStep]
+    obtain ⟨s', hs'⟩ := newGlyph_ok (n := n) h.wf
+    obtain ⟨hg1, ha⟩ := new_spec h hs'
+    simp [hs', hg1, ha]
+  | insert n r =>
+    simp only [step, specStep]
+    simp only [OpOK] at hop
+    cases hi : insert s n r with
+    | ok s' =>
+      obtain ⟨hg1, ha⟩ := insert_spec h hop hi
+      simp [hg1, ha]
+    | error e =>
+      exfalso
+      unfold insert at hi
+      obtain ⟨s1, hs1⟩ := newGlyph_ok (n := n) h.wf
+      obtain ⟨hg1, ha1⟩ := new_spec h hs1
+      simp only [hs1] at hi
+      have hv1 : (abs s1 n).isSome := by rw [ha1]; simp [upd]
+      obtain ⟨p1, hp1⟩ := getItem_ok hg1.wf hv1
+      cases h2 : setUnicodes s1 n r.unicodes with
+      | error e2 =>
+        unfold setUnicodes at h2
+        simp only [hp1] at h2
+        split at h2 <;> simp at h2
+      | ok s2 =>
+        simp only [h2] at hi
+        obtain ⟨hg2, r2, hr2, ha2⟩ := setUnicodes_spec hg1 hop h2
+        have hv2 : (abs s2 n).isSome := by rw [ha2]; simp [upd]
+        obtain ⟨p2, hp2⟩ := getItem_ok hg2.wf hv2
+        unfold editRest at hi
+        simp [hp2] at hi
+  | delete n =>
+    simp only [step, specStep]
+    unfold delete
+    by_cases hv : n ∈ visible s
+    · have hv' := (mem_visible_iff h.wf n).mp hv
+      obtain ⟨s', hs'⟩ := deleteGlyph_ok h.wf hv'
+      obtain ⟨hg1, ha⟩ := delete_spec h hs' hv'
+      simp [hv, hs', hv', hg1, ha]
+    · have hv' : ¬ (abs s n).isSome := fun x => hv ((mem_visible_iff h.wf n).mpr x)
+      simp [hv, hv', h]
+  | rename o n =>
+    simp only [step, specStep]
+    simp only [OpOK] at hop
+    cases hr : rename s o n with
+    | ok s' =>
+      obtain ⟨hg1, r, hro, ha⟩ := rename_spec h hop hr
+      simp only [hro]
+      refine ⟨hg1, ?_⟩
+      intro k
+      rw [ha]
+      by_cases e : o = n <;> simp [e]
+    | error e =>
+      unfold rename at hr
+      cases hg : getItem s o with
+      | error e2 =>
+        have := (getItem_error_iff h.wf).mp ⟨e2, hg⟩
+        simp [this, h]
+      | ok p =>
+        exfalso
+        obtain ⟨s1, r⟩ := p
+        simp only [hg] at hr
+        obtain ⟨hg1, hsame, hro, _⟩ := getItem_spec h hg
+        split at hr
+        · simp at hr
+        · have hv : (abs s1 o).isSome := by rw [hsame, hro]; rfl
+          obtain ⟨s2, hs2⟩ := deleteGlyph_ok hg1.wf hv
+          simp [hs2] at hr
+  | setUnicodes n us =>
+    simp only [step, specStep]
+    simp only [OpOK] at hop
+    cases hr : setUnicodes s n us with
+    | ok s' =>
+      obtain ⟨hg1, r, hrn, ha⟩ := setUnicodes_spec h hop hr
+      simp [hrn, hg1, ha]
+    | error e =>
+      unfold setUnicodes at hr
+      cases hg : getItem s n with
+      | error e2 =>
+        have := (getItem_error_iff h.wf).mp ⟨e2, hg⟩
+        simp [this, h]
+      | ok p =>
+        exfalso
+        simp only [hg] at hr
+        split at hr <;> simp at hr
+  | edit n c i ol ofast =>
+    simp only [step, specStep]
+    cases hr : editRest s n c i ol ofast with
+    | ok s' =>
+      obtain ⟨hg1, r, hrn, ha⟩ := edit_spec h hr
+      simp [hrn, hg1, ha]
+    | error e =>
+      unfold editRest at hr
+      cases hg : getItem s n with
+      | error e2 =>
+        have := (getItem_error_iff h.wf).mp ⟨e2, hg⟩
+        simp [this, h]
+      | ok p =>
+        exfalso
+        simp [hg] at hr
+  | save =>
+    simp only [step, specStep, Option.getD_some]
+    refine ⟨⟨wf_save h.wf, ?_, recsOK_congr (abs_save h.wf) h.recs⟩, abs_save h.wf⟩
+    unfold UniOK
+    apply uniInv_congr (fun k => (abs_save h.wf k).symm)
+    exact h.uni
+  | touchUni =>
+    simp only [step, specStep, Option.getD_some]
+    exact touchUni_spec h
+
+theorem specTotal_congr {f g : String → Option GRec} (h : ∀ k, f k = g k) (op : Op) (k : String) :
+    specTotal f op k = specTotal g op k := by
+  have : f = g := funext h
+  rw [this]
+
+theorem opOK_congr {f g : String → Option GRec} (h : ∀ k, f k = g k) (op : Op) : OpOK f op ↔ OpOK g op := by
+  have : f = g := funext h
+  rw [this]
+
+theorem run_refines (s : State) (ops : List Op) (h : Good s) (hops : OpsOK (abs s) ops) :
+    Good (run s ops) ∧ ∀ k, abs (run s ops) k = specRun (abs s) ops k := by
+  induction ops generalizing s with
+  | nil => exact ⟨h, fun _ => rfl⟩
+  | cons op ops ih =>
+    obtain ⟨hop, hrest⟩ := hops
+    obtain ⟨hg1, ha1⟩ := step_refines op h hop
+    have hfe : abs (stepTotal s op) = specTotal (abs s) op := funext ha1
+    have := ih (stepTotal s op) hg1 (by rw [hfe]; exact hrest)
+    unfold run specRun at this ⊢
+    simp only [List.foldl_cons]
+    rw [← hfe]
+    exact this
 
 end Layer
 end DefconModel
